@@ -373,6 +373,7 @@ func checkC17(p *Prog, rp *Report) {
 		tbl.check(mismatch == "", "changelog.Parse", pos, fmt.Sprintf("%d scripts: entries equal the reference field by field; malformed or truncated input always gives an error and no entries", n), mismatch)
 	}
 
+	tableOK := undec == "" && mismatch == ""
 	// C17-LIST: Parse with ParseOne as oracle
 	lst := rp.Rule("C17-LIST", "Parse: entries until a clean io.EOF; any other error gives an empty list and that error", 1)
 	po := p.Func("changelog", "ParseOne")
@@ -381,6 +382,7 @@ func checkC17(p *Prog, rp *Report) {
 		return
 	}
 	var problems []string
+	oracleCalled := false
 	for _, sc := range [][]string{{"EOF"}, {"e1", "EOF"}, {"e1", "e2", "EOF"}, {"ERR"}, {"e1", "ERR"}, {"e1", "UEOF"}} {
 		m := NewMachine(p, nil)
 		installStringModels(m)
@@ -392,6 +394,7 @@ func checkC17(p *Prog, rp *Report) {
 		i := 0
 		sc := sc
 		m.Hooks[po.String()] = func(m *Machine, st *State, call *ssa.CallCommon, args []Val) ([]Val, bool) {
+			oracleCalled = true
 			s := sc[i]
 			i++
 			switch s {
@@ -430,7 +433,12 @@ func checkC17(p *Prog, rp *Report) {
 			und = pr
 		}
 	}
-	if und != "" {
+	if und != "" && !oracleCalled && tableOK {
+		// Parse does not go through the exported ParseOne (its work is done by an unexported function): the clause is
+		// then what C17-TABLE decided on its scripts, which contain every truncation and every malformed line kind
+		// and compare the entries returned together with the error
+		lst.ok("changelog.Parse", pos, "Parse does not call ParseOne; decided by the scripts of C17-TABLE (entries only without an error, on every truncation and malformed line)")
+	} else if und != "" {
 		lst.undecided("changelog.Parse", pos, und)
 	} else {
 		lst.check(len(problems) == 0, "changelog.Parse", pos, "6 outcome sequences of ParseOne", strings.Join(problems, "; "))
